@@ -53,7 +53,14 @@ func sweepRequests() []resp.Value {
 	for _, k := range []string{"l", "n"} {
 		for _, a := range B {
 			add("LINDEX", k, a)
+			// pops are destructive: refill first so that every count meets a non-empty list
+			if k == "l" {
+				add("RPUSH", k, "x", "y", "z")
+			}
 			add("LPOP", k, a)
+			if k == "l" {
+				add("RPUSH", k, "x", "y", "z")
+			}
 			add("RPOP", k, a)
 			for _, b := range B {
 				add("LRANGE", k, a, b)
@@ -457,7 +464,20 @@ type attack struct {
 func c07attack(r *rng.R, i int) attack {
 	var a attack
 	a.End = rng.Pick(r, []string{"fin", "rst", "halfclose", "fin", "rst"})
-	switch r.Intn(6) {
+	switch r.Intn(7) {
+	case 6:
+		// the heavy classes explicitly: deep nesting, allocation-bomb headers, very wide arrays
+		var heavy []c06case
+		want := rng.Pick(r, []string{"deep-nesting", "deep-nesting", "bomb-header", "wide"})
+		for _, f := range c06.fixed {
+			if f.Class == want {
+				heavy = append(heavy, f)
+			}
+		}
+		h := rng.Pick(r, heavy)
+		a.Stream = h.Stream
+		a.Kind = "heavy:" + h.Class
+		a.End = "halfclose-wait" // stay until the server has digested the stream (it closes, or dies)
 	case 0:
 		if len(c06.fixed) > 0 && r.Bool() {
 			a.Stream = c06.fixed[r.Intn(len(c06.fixed))].Stream
@@ -538,6 +558,12 @@ func (a attack) play(port int) (finish func()) {
 		tc.Write(a.Stream)
 		tc.CloseWrite()
 		drain(300 * time.Millisecond)
+		tc.Close()
+	case "halfclose-wait":
+		tc.SetDeadline(time.Now().Add(60 * time.Second))
+		tc.Write(a.Stream)
+		tc.CloseWrite()
+		drain(60 * time.Second) // returns as soon as the server closes the connection
 		tc.Close()
 	default:
 		tc.Write(a.Stream)
